@@ -604,8 +604,9 @@ fn window_violation(log: &[(u64, u64)], w: u64, limit: u64) -> Option<(u64, u128
     None
 }
 
+/// records what the flow asks and delegates the decision to one of the approvers of approver.rs
 struct RecApprover {
-    approve: bool,
+    inner: Arc<dyn Approve>,
     seen: Mutex<Option<Vec<usize>>>,
 }
 impl SendSync for RecApprover {}
@@ -616,9 +617,51 @@ impl Approve for RecApprover {
     fn approve_keysend(&self, _payment_hash: PaymentHash, _amount_msat: u64) -> bool {
         false
     }
-    fn approve_onchain(&self, _tx: &Transaction, _prev_outs: &[TxOut], unknown_indices: &[usize]) -> bool {
+    fn approve_onchain(&self, tx: &Transaction, prev_outs: &[TxOut], unknown_indices: &[usize]) -> bool {
         *self.seen.lock().unwrap() = Some(unknown_indices.to_vec());
-        self.approve
+        self.inner.approve_onchain(tx, prev_outs, unknown_indices)
+    }
+}
+
+/// approver kinds (the `ap` token): 0 = no approver (check_onchain_tx only) · 1 Positive · 2 Negative ·
+/// 3 MemoApprover<Negative> holding Approval::Onchain(THIS tx) · 4 … holding an approval for a tx with the same outputs
+/// but other inputs · 5 … for a tx with the same inputs and one output value changed · 6 VelocityApprover<Positive> ·
+/// 7 VelocityApprover<Negative> · 8 MemoApprover<Negative> holding only a keysend approval
+fn approver_approves(ap: u8) -> bool {
+    matches!(ap, 1 | 3 | 6)
+}
+fn make_approver(ap: u8, tx: &Transaction, clock: Arc<ManualClock>) -> Arc<dyn Approve> {
+    use vls_protocol_signer::approver::{Approval, MemoApprover, NegativeApprover, PositiveApprover, VelocityApprover};
+    let memo = |a: Vec<Approval>| -> Arc<dyn Approve> {
+        let m = MemoApprover::new(NegativeApprover());
+        m.approve(a);
+        Arc::new(m)
+    };
+    match ap {
+        1 => Arc::new(PositiveApprover()),
+        3 => memo(vec![Approval::Onchain(tx.clone())]),
+        4 => {
+            // what the user approved: the same payments, funded by other coins
+            let mut a = tx.clone();
+            if let Some(i) = a.input.first_mut() {
+                i.previous_output.vout = i.previous_output.vout.wrapping_add(1000);
+            }
+            a.input.push(mk_txin(9999));
+            memo(vec![Approval::Onchain(a)])
+        }
+        5 => {
+            let mut a = tx.clone();
+            if let Some(o) = a.output.first_mut() {
+                o.value = Amount::from_sat(o.value.to_sat() ^ 1);
+            } else {
+                a.version = Version(a.version.0 ^ 1);
+            }
+            memo(vec![Approval::Onchain(a)])
+        }
+        6 => Arc::new(VelocityApprover::new(clock, VelocityControl::new(VelocityControlSpec::UNLIMITED), PositiveApprover())),
+        7 => Arc::new(VelocityApprover::new(clock, VelocityControl::new(VelocityControlSpec::UNLIMITED), NegativeApprover())),
+        8 => memo(vec![Approval::KeySend(PaymentHash([1; 32]), 1000)]),
+        _ => Arc::new(NegativeApprover()),
     }
 }
 
@@ -693,7 +736,8 @@ impl C08Onchain {
         env.clock.set(Duration::from_secs(spec.now));
 
         // ---- the call under test
-        let approver = RecApprover { approve: spec.ap == 1, seen: Mutex::new(None) };
+        let approves = approver_approves(spec.ap);
+        let approver = RecApprover { inner: make_approver(spec.ap, &tx, env.clock.clone()), seen: Mutex::new(None) };
         let node2 = node.clone();
         let r = std::panic::catch_unwind(std::panic::AssertUnwindSafe(|| {
             if spec.ap == 0 {
@@ -719,8 +763,8 @@ impl C08Onchain {
                 let seen = approver.seen.lock().unwrap().clone();
                 match (res, seen) {
                     (Ok(b), Some(ix)) => {
-                        if b != (spec.ap == 1) {
-                            co.violations.push(Violation { kind: "approver-decision-ignored".into(), desc: format!("approver said {} but handle_proposed_onchain returned {}", spec.ap == 1, b), at });
+                        if b != approves {
+                            co.violations.push(Violation { kind: "approver-decision-ignored".into(), desc: format!("approver kind {} (approves THIS tx: {}) but handle_proposed_onchain returned {}", spec.ap, approves, b), at });
                         }
                         co.tags.insert(format!("approver:{}", if b { "approved" } else { "declined" }));
                         ("unknown".into(), Some(ix))
@@ -784,6 +828,14 @@ impl C08Onchain {
                     co.violations.push(Violation { kind: "unknown-indices-wrong".into(), desc: format!("reported unknown outputs {:?}, really unknown {:?}", ix, unknown_truth), at });
                 }
             }
+        }
+        // an unknown destination is signed only if THIS transaction was approved
+        if flow == Some("signed") && !unknown_truth.is_empty() && !approves {
+            co.violations.push(Violation {
+                kind: "unapproved-destination-signed".into(),
+                desc: format!("the flow ended in `sign` for a tx paying unknown destinations {:?} although approver kind {} did not approve this transaction", unknown_truth, spec.ap),
+                at,
+            });
         }
         let passed_ok = class == "ok";
         if passed_ok || flow_signed {
@@ -992,7 +1044,7 @@ fn gen_tx(rng: &mut Rng, cfg: &Cfg, now: u64) -> TxSpec {
         cfg: cfg.clone(),
         now,
         version: match rng.below(15) { 0 => 1, 1 => 3, _ => 2 },
-        ap: match rng.below(10) { 0 | 1 => 1, 2 => 2, _ => 0 },
+        ap: match rng.below(10) { 0 | 1 => *rng.pick(&[1u8, 3, 6]), 2 | 3 => *rng.pick(&[2u8, 4, 4, 5, 7, 8]), _ => 0 },
         segwit: (0..n_in).map(|_| !rng.chance(1, 12)).collect(),
         n_in,
         prev: vec![],
@@ -1154,7 +1206,7 @@ fn gen_flow_tx(rng: &mut Rng, cfg: &Cfg, now: u64) -> TxSpec {
         segwit = vec![true; n_in];
     }
     let mut spec = TxSpec {
-        cfg: cfg.clone(), now, version: 2, ap: match rng.below(6) { 0 => 0, 1 | 2 => 2, _ => 1 },
+        cfg: cfg.clone(), now, version: 2, ap: match rng.below(6) { 0 => 0, 1 | 2 => *rng.pick(&[2u8, 4, 4, 5, 7, 8]), _ => *rng.pick(&[1u8, 3, 6]) },
         segwit, n_in, prev: vec![], uck: vec![None; n_in], n_opaths: outs.len(), chans, outs,
     };
     let sum: u128 = spec.outs.iter().map(|o| o.value as u128).sum();
@@ -1197,6 +1249,9 @@ impl Group for C08Onchain {
             c("node 333333;0;w8;n;-;- 1000000000 d|tx 333333;0;w8;n;-;- 1600000000 2 0 1 1 1001000:w N 1 0:1000000:1:3000000:1 C0@-=1000000"),
             // the same funding scenario under vlsd's default OnchainValidatorFactory (upper-case style letter)
             c("node 333333;0;d;N;-;- 1000000000 d|tx 333333;0;d;N;-;- 1600000000 2 0 1 1 5000000:w N 2 1:3000000:1:0:1 W/1/w@1=1999000,C0@-=3000000|tx 333333;0;d;N;-;- 1600000001 2 0 0 1 5000000:w N 2 1:3000000:1:0:1 W/1/w@1=1999000,C0@-=3000000"),
+            // MemoApprover: an approval for THIS tx is honoured (3); an approval for a tx with the same outputs but other inputs (4) or
+            // with another output value (5) is not; VelocityApprover delegates (6 approves, 7 declines)
+            c("node 333333;0;d;n;-;- 1000000000 d|tx 333333;0;d;n;-;- 1600000000 2 3 1 1 1000000:w N 1 - F/2/w@-=990000|tx 333333;0;d;n;-;- 1600000001 2 4 1 1 50000000:w N 1 - F/2/w@-=990000|tx 333333;0;d;n;-;- 1600000002 2 5 1 1 1000000:w N 1 - F/2/w@-=990000|tx 333333;0;d;n;-;- 1600000003 2 6 1 1 1000000:w N 1 - F/2/w@-=990000|tx 333333;0;d;n;-;- 1600000004 2 7 1 1 1000000:w N 1 - F/2/w@-=990000"),
             // unknown output next to a wallet output, through the approver (declines)
             c("node 333333;0;d;n;F/1/w;- 1000000000 d|tx 333333;0;d;n;F/1/w;- 1600000000 2 2 1 1 100000:w N 3 - W/1/w@1=50000,F/2/w@-=20000,F/1/w@-=29000"),
             // inbound / pushed / not yet counter-signed channels
@@ -1235,7 +1290,7 @@ impl Group for C08Onchain {
                         if tr.script_allow { 1 } else { 0 }, tr.xpub, ch)
                 }).collect();
                 Some(format!("tx {} {} {} {} {} {} {} {} {} {} {} {} {} {}",
-                    spec.ap.min(2), spec.cfg.max_feerate, if spec.cfg.dev { 1 } else { 0 }, bits, spec.now,
+                    if spec.ap == 0 { 0 } else if approver_approves(spec.ap) { 1 } else { 2 }, spec.cfg.max_feerate, if spec.cfg.dev { 1 } else { 0 }, bits, spec.now,
                     spec.version as u32, d.base_size(), d.weight().to_wu(), spec.n_in,
                     if spec.segwit.is_empty() { "-".to_string() } else { spec.segwit.iter().map(|b| if *b { '1' } else { '0' }).collect() },
                     j(spec.prev.iter().map(|(v, _)| v.to_string()).collect(), ","),
